@@ -51,6 +51,7 @@ type Contract struct {
 	Calls      []string // for documentation
 	Observes   []string // expressions whose values counterexamples report
 	Locked     []string // lock field names that every caller must hold
+	AtCalls    []*AtCall // assertions checked in this function just before calls of a named callee
 	Prune      bool     // drop branches the precondition rules out while executing (narrow-precondition variants)
 	DeadReturnCount int // number of return sites that are legitimately unreachable under the precondition (defensive dead code)
 }
@@ -65,7 +66,7 @@ type RegionSpec struct {
 
 var clauseKeywords = map[string]bool{"func": true, "requires": true, "ensures": true, "modifies": true, "loop": true,
 	"pure": true, "trusted": true, "inline": true, "nosafety": true, "props": true, "assume": true, "region": true,
-	"from": true, "to": true, "ghost": true, "lemma": true, "vars": true, "safetyonly": true, "field": true, "monitor": true, "end": true, "observe": true, "deadreturn": true, "locked": true, "prune": true}
+	"from": true, "to": true, "ghost": true, "lemma": true, "vars": true, "safetyonly": true, "field": true, "monitor": true, "end": true, "observe": true, "deadreturn": true, "locked": true, "prune": true, "atcall": true}
 
 type rawLine struct {
 	text string
@@ -218,6 +219,17 @@ func ParseContractFile(path string) ([]*Contract, []*Decl, error) {
 			cur.Assumes = append(cur.Assumes, rest)
 		case "prune":
 			cur.Prune = true
+		case "atcall":
+			// atcall <callee key> assert <expr>
+			i := strings.Index(rest, " assert ")
+			if i < 0 {
+				return nil, nil, fmt.Errorf("%s:%d: atcall <callee> assert <expr>", path, rl.line)
+			}
+			e, err := parseSpecExpr(rest[i+8:])
+			if err != nil {
+				return nil, nil, fmt.Errorf("%s:%d: %v", path, rl.line, err)
+			}
+			cur.AtCalls = append(cur.AtCalls, &AtCall{Callee: strings.TrimSpace(rest[:i]), Text: rest[i+8:], Expr: e, Line: rl.line, File: path})
 		case "locked":
 			cur.Locked = append(cur.Locked, fields[1:]...)
 		case "deadreturn":
@@ -414,4 +426,15 @@ func parseSpecExpr(text string) (ast.Expr, error) {
 		return nil, fmt.Errorf("cannot parse %q (desugared %q): %v", text, d, err)
 	}
 	return e, nil
+}
+
+// AtCall is a region postcondition anchored structurally: it must hold, in the
+// caller's state and over the caller's locals, immediately before every call of Callee.
+type AtCall struct {
+	Callee string
+	Text   string
+	Expr   ast.Expr
+	Line   int
+	File   string
+	Hits   int
 }
